@@ -24,3 +24,96 @@ package baseorbitdb
 //@   requires forall a Str :: (a in o.stores) ==> o.stores[a] != nil
 //@   flag assume-typeassert
 //@   loop 1 noexit
+
+// ---- C14: local-presence marker and the create / overwrite / local-only refusals ----
+// mkey(a): cache key of the marker that says "this database is known locally"
+//@ spec func mkey(a Iface) V_datastore_Key = dsKey(pjoin(strs(addrStr(a), "_manifest")))
+
+// haveLocalData: true only if the marker is in the cache; false whenever it is not.
+//@ func (*orbitDB).haveLocalData
+//@   props C14
+//@   flag nilcalls
+//@   requires o.logger != nil && dbAddress != nil
+//@   ensures result ==> c != nil && dsHas(c)[mkey(dbAddress)]
+//@   ensures c != nil && !dsHas(c)[mkey(dbAddress)] ==> !result
+//@   modifies nothing
+
+// addManifestToCache writes that same marker into the cache directory of the database.
+//@ func (*orbitDB).addManifestToCache
+//@   props C14
+//@   flag nilcalls
+//@   requires o.cache != nil && dbAddress != nil
+//@   ghost D := cacheFor(o.cache, directory, addrStr(dbAddress))
+//@   ensures result == nil ==> dsHas(D)[mkey(dbAddress)]
+//@   modifies dsMap(cacheFor(o.cache, directory, addrStr(dbAddress))), dsHas(cacheFor(o.cache, directory, addrStr(dbAddress)))
+
+//@ func (*orbitDB).loadCache
+//@   props C14
+//@   flag nilcalls
+//@   requires o.cache != nil
+//@   ensures result1 == nil ==> result != nil && result == cacheFor(o.cache, directory, addrStr(dbAddress))
+//@   modifies nothing
+
+// address validity / parsing (package address): functions of the string (verified separately: bounded)
+//@ spec func addrValid(s Str) Bool
+//@ spec func parsedAddr(s Str) Iface
+//@ extern berty.tech/go-orbit-db/address.IsValid as IsValid(name) (err)
+//@   ensures (err == nil) == addrValid(name)
+//@   modifies nothing
+//@ extern berty.tech/go-orbit-db/address.Parse as Parse(path) (a, err)
+//@   ensures err == nil ==> a != nil && a == parsedAddr(path)
+//@   modifies nothing
+
+// createStore: body not verified here (constructors, access-controller resolution); only a ghost count of
+// created stores and its frame are assumed.
+//@ ghost field storesCreated(Int) Int
+//@ noeffect (*berty.tech/go-orbit-db/baseorbitdb.orbitDB).storeTypesNames
+//@ func (*orbitDB).createStore
+//@   trusted
+//@   ensures storesCreated(o) == old(storesCreated(o)) + 1
+//@   modifies storesCreated(o), mapof(o.stores)
+
+// DetermineAddress: see below for its functional contract; for its callers it touches only the options it is
+// given and content-addressed storage.
+//@ func (*orbitDB).DetermineAddress
+//@   props C14
+//@   flag no-safety
+//@   flag assume-frame
+//@   ensures result1 == nil ==> result != nil
+//@   ensures addrValid(name) ==> result1 != nil
+//@   ensures result1 == nil ==> result == parsedAddr(pjoin(strs("/orbitdb", cidStr(manifestHash(name, storeType, pjoin(strs("/ipfs", cidStr(accessControllerAddress))))), name)))
+//@   modifies "F:baseorbitdb.DetermineAddressOptions.AccessController", "F:baseorbitdb.DetermineAddressOptions.OnlyHash"
+
+// Create: creating over a database that is already known locally is refused unless overwrite is requested —
+// nothing is written to the cache and no store is created on that path.
+//@ func (*orbitDB).Create
+//@   props C14
+//@   flag nilcalls
+//@   requires o.logger != nil && o.cache != nil
+//@   ghost ow := options != nil && options.Overwrite != nil && deref(options.Overwrite)
+//@   assert @ before call o.addManifestToCache#1: haveDB ==> ow
+//@   assert @ before call o.Open#1: dsHas(cacheFor(o.cache, o.directory, addrStr(dbAddress)))[mkey(dbAddress)] && (haveDB ==> ow)
+//@   modifies *
+
+//@ extern param:(*orbitDB).Open.cancel as cancel()
+//@   modifies nothing
+// decoding the manifest fills the manifest struct (arbitrary content: it comes from the network)
+//@ extern github.com/ipfs/go-ipld-cbor.DecodeInto as DecodeInto(b, v) (err)
+//@   modifies "F:utils.Manifest.Name", "F:utils.Manifest.Type", "F:utils.Manifest.AccessController"
+
+// Open: a local-only open of a database that is not known locally is refused before anything is fetched or
+// created; an invalid address is refused unless creation is requested together with a store type.
+//@ func (*orbitDB).Open
+//@   props C14
+//@   flag nilcalls
+//@   requires o.logger != nil && o.cache != nil
+//@   ghost S0 := storesCreated(o)
+//@   ghost lo := options != nil && options.LocalOnly != nil && deref(options.LocalOnly)
+//@   ghost cr := options != nil && options.Create != nil && deref(options.Create)
+//@   ghost st := options != nil && options.StoreType != nil && deref(options.StoreType) != ""
+//@   ghost dir := (options != nil && options.Directory != nil) ? deref(options.Directory) : o.directory
+//@   ensures !addrValid(dbAddress) && !cr ==> result1 != nil && storesCreated(o) == S0
+//@   ensures !addrValid(dbAddress) && cr && !st ==> result1 != nil && storesCreated(o) == S0
+//@   ensures addrValid(dbAddress) && lo && !old(dsHas(cacheFor(o.cache, dir, addrStr(parsedAddr(dbAddress))))[mkey(parsedAddr(dbAddress))]) ==> result1 != nil && storesCreated(o) == S0
+//@   assert @ before call o.createStore#1: lo ==> haveDB
+//@   modifies *
